@@ -26,8 +26,8 @@ Debug == UNCHANGED map /\ last' = L("debug", 0, 0, 1)
 IterStep == /\ UNCHANGED map /\ last'.op \in {"next", "abandon"}
             /\ (last'.op = "next" /\ last'.res # 0 => last'.res \in DOMAIN map)
 \* nearest-key search: floor semantics, a function of the key set only (C04)
-Nearest == /\ UNCHANGED map /\ last'.op = "nearest" /\ DOMAIN map # {}
-           /\ last'.res = Floor(DOMAIN map, last'.a)
+Nearest == /\ UNCHANGED map /\ last'.op = "nearest"
+           /\ last'.res = (IF DOMAIN map = {} THEN 0 ELSE Floor(DOMAIN map, last'.a))      \* 0: not found (empty table)
 Next == \/ \E k \in Keys, v \in Vals : Put(k, v)
         \/ \E k \in Keys : Remove(k) \/ Get(k)
         \/ FindMin \/ FindMax \/ Size \/ Clear \/ Debug \/ IterStep \/ Nearest
